@@ -190,19 +190,21 @@ handler!(get_status(state: Extension<Arc<GlobalState>>) -> impl IntoResponse {
 });
 
 handler!(get_alive(state: Extension<Arc<GlobalState>>) -> impl IntoResponse {
+    // take a snapshot of the registry first: it must not stay locked (blocking every new
+    // connection) while waiting for the lock of an individual connection
+    let alive = state
+        .contexts
+        .alive
+        .lock()
+        .await
+        .values()
+        .filter_map(Weak::upgrade)
+        .collect::<Vec<_>>();
     Json(
-        futures::stream::iter(
-            state
-                .contexts
-                .alive
-                .lock()
-                .await
-                .values()
-                .filter_map(Weak::upgrade),
-        )
-        .then(|x| async move { x.read().await.props().clone() })
-        .collect::<Vec<_>>()
-        .await,
+        futures::stream::iter(alive)
+            .then(|x| async move { x.read().await.props().clone() })
+            .collect::<Vec<_>>()
+            .await,
     )
 });
 
